@@ -13,5 +13,46 @@ def _oracle(S, b, trace):
     return out
 
 
-K = Kit("C04", _oracle, streams=(("structured", 0.5), ("contention", 0.32), ("pairs", 0.18)))
-eval_case, run, replay = K.eval_case, K.run, K.replay
+def _tweak(rng, c):
+    """a second assignment of teams to tasks: after the run the model is edited (both sides of the
+    relation) and the same project object is simulated again"""
+    if len(c.get("teams", [])) >= 2 and c["ops"][0].get("init_log", True) and c["ops"][0].get("init_state", True) and rng.random() < 0.15:
+        nteam = len(c["teams"])
+        c["rewire"] = [sorted(rng.sample(range(nteam), rng.choice([1, 1, min(2, nteam)]))) for _ in c["tasks"]]
+
+
+K = Kit("C04", _oracle, streams=(("structured", 0.5), ("contention", 0.32), ("pairs", 0.18)), tweak=_tweak)
+run, replay = K.run, K.replay
+_base_eval = K.eval_case
+
+
+def eval_case(case):
+    res = _base_eval(case)
+    if case.get("rewire") and len(case["ops"]) == 1 and case["ops"][0]["op"] == "simulate":
+        from .. import sim
+        b, tr1 = sim.run_ops(case, want_snaps=False)
+        # edit the model: every team forgets its tasks, every task its teams, then the new assignment
+        for tm in b.teams:
+            tm.targeted_task_list = []
+        for t in b.tasks:
+            t.allocated_team_list = []
+        for i, tms in enumerate(case["rewire"]):
+            for g in tms:
+                b.teams[g].append_targeted_task(b.tasks[i])
+        case2 = dict(case, tasks=[dict(t, teams=list(tms)) for t, tms in zip(case["tasks"], case["rewire"])])
+        case2.pop("rewire", None)
+        for tm in case2["teams"]:
+            tm.pop("oneside", None)
+        S2 = O.Static(case2)
+        b, tr2 = sim.run_ops(case2, want_snaps=True, built=b)
+        res["violations"] += [dict(v, signature=v["signature"] + "/rewired") for v in _oracle(S2, b, tr2)]
+        bF, trF = sim.run_ops(case2, want_snaps=False)
+        if tr2[0]["exc"] is None and trF[0]["exc"] is None:
+            df = O.dump_diff(tr2[0]["dump"], trF[0]["dump"])
+            if df:
+                res["violations"].append(O.V("a project simulated again after its teams were re-assigned differs from a freshly built one",
+                                             "C04/rewired-differs", df[:3]))
+    return res
+
+
+K.eval_case = eval_case
